@@ -416,30 +416,37 @@ Proof. repeat split; vmr. Qed.
 Definition dq : ascii := """"%char.
 Definition bsl : ascii := "\"%char.
 
-(* [str_body prev s]: s is the inside of a string literal whose preceding character is prev: every double quote
-   in it is preceded by a backslash, and it does not end in a backslash (so the closing quote is not escaped) *)
-Fixpoint str_body (prev : ascii) (s : string) : bool :=
+(* [esc_body esc s]: s is the inside of a string literal, scanned with the escape state esc (= the previous
+   character was an unescaped backslash): a backslash escapes the character after it; no UNESCAPED double quote
+   occurs in s; and s does not end in the escaped state (so the closing quote is not escaped).
+   (a, backslash, backslash) is a body; (a, backslash) is not; (a, backslash, quote, b) is. *)
+Fixpoint esc_body (esc : bool) (s : string) : bool :=
   match s with
-  | EmptyString => negb (Ascii.eqb prev bsl)
-  | String c t => (negb (Ascii.eqb c dq) || Ascii.eqb prev bsl) && str_body c t
+  | EmptyString => negb esc
+  | String c t =>
+      if esc then esc_body false t
+      else if Ascii.eqb c bsl then esc_body true t
+      else negb (Ascii.eqb c dq) && esc_body false t
   end.
 Definition quoted (body : string) : string := String dq (body ++ String dq "").
-Definition body_ok (body : string) : bool := str_body dq body.
+Definition body_ok (body : string) : bool := esc_body false body.
 
-Lemma tok_string_body : forall body fuel cur prev rest,
-  str_body prev body = true ->
-  tok_string fuel (body ++ String dq rest) cur prev =
+Lemma tok_string_body : forall body fuel cur esc rest,
+  esc_body esc body = true ->
+  tok_string fuel (body ++ String dq rest) cur esc =
   Some (rev_string (String dq (rev_string_acc body cur)), rest).
 Proof.
-  induction body as [|c t IH]; intros fuel cur prev rest H.
-  - cbn [str_body] in H. apply negb_true_iff in H.
-    cbn [String.append tok_string rev_string_acc]. fold bsl. rewrite H.
-    change (Ascii.eqb dq """"%char) with true. reflexivity.
-  - cbn [str_body] in H. apply andb_true_iff in H. destruct H as [H1 H2].
-    cbn [String.append tok_string rev_string_acc]. fold bsl. fold dq.
-    assert (E : (Ascii.eqb c dq && negb (Ascii.eqb prev bsl))%bool = false).
-    { destruct (Ascii.eqb c dq); destruct (Ascii.eqb prev bsl); try reflexivity. discriminate H1. }
-    rewrite E. apply IH. exact H2.
+  induction body as [|c t IH]; intros fuel cur esc rest H.
+  - cbn [esc_body] in H. apply negb_true_iff in H. subst esc.
+    cbn [String.append tok_string rev_string_acc].
+    change (Ascii.eqb dq "\"%char) with false. change (Ascii.eqb dq """"%char) with true. reflexivity.
+  - cbn [esc_body] in H. cbn [String.append tok_string rev_string_acc]. fold bsl. fold dq.
+    destruct esc.
+    + apply IH. exact H.
+    + destruct (Ascii.eqb c bsl).
+      * apply IH. exact H.
+      * apply andb_true_iff in H. destruct H as [H1 H2]. apply negb_true_iff in H1. rewrite H1.
+        apply IH. exact H2.
 Qed.
 
 Lemma rev_quoted : forall body,
@@ -459,7 +466,7 @@ Proof.
   intros body fuel rest H. unfold quoted. cbn [String.append tokenize_acc].
   change (is_space dq) with false. change (Ascii.eqb dq """"%char) with true. cbv iota.
   rewrite sapp_assoc. cbn [String.append].
-  rewrite (tok_string_body body fuel (String dq "") dq rest H). rewrite rev_quoted. reflexivity.
+  rewrite (tok_string_body body fuel (String dq "") false rest H). rewrite rev_quoted. reflexivity.
 Qed.
 
 (* a plain piece followed by a blank: the tokens of the piece, then the rest with an empty accumulator *)
@@ -601,12 +608,44 @@ Proof.
   rewrite Hl. reflexivity.
 Qed.
 
-(* the tokenizer treats the closing quote after an escaped backslash as escaped: `byte "a\\"` (the two-character
-   string a, backslash -- valid TEAL) is rejected *)
-Theorem quoted_backslash_refuted :
-  parse_line ("byte " ++ String dq ("a" ++ String bsl (String bsl (String dq "")))) =
-  Err "ParseError: missing closing quote".
+(* after the repair of the tokenizer (a backslash escapes the next character): the closing quote after an ESCAPED
+   backslash closes the literal -- `byte "a\\"` (the two-character string a, backslash; valid TEAL) is accepted *)
+Theorem quoted_backslash_accepted :
+  parse_line ("byte " ++ quoted "a\\") = Ok (Some (IOther "Byte" [PStr (quoted "a\\")])).
 Proof. vmr. Qed.
+(* an escaped quote still does not close the literal; a lone trailing backslash escapes the closing quote *)
+Theorem quoted_escapes :
+  body_ok "a\\" = true /\ body_ok (String "a" (String bsl (String dq "b"))) = true /\
+  parse_line ("byte " ++ quoted (String "a" (String bsl (String dq "b")))) =
+    Ok (Some (IOther "Byte" [PStr (quoted (String "a" (String bsl (String dq "b"))))])) /\
+  body_ok "a\" = false /\
+  parse_line ("byte " ++ quoted "a\") = Err "ParseError: missing closing quote".
+Proof. repeat split; vmr. Qed.
+
+(* relation to the notion before the repair (previous character instead of escape state) *)
+Fixpoint str_body_old (prev : ascii) (s : string) : bool :=
+  match s with
+  | EmptyString => negb (Ascii.eqb prev bsl)
+  | String c t => (negb (Ascii.eqb c dq) || Ascii.eqb prev bsl) && str_body_old c t
+  end.
+Fixpoint no_bsl (s : string) : bool :=
+  match s with EmptyString => true | String c t => negb (Ascii.eqb c bsl) && no_bsl t end.
+(* without backslashes the two notions coincide (no double quote inside) *)
+Theorem body_ok_old_no_bsl : forall s, no_bsl s = true -> body_ok s = str_body_old dq s.
+Proof.
+  assert (G : forall s prev, Ascii.eqb prev bsl = false -> no_bsl s = true ->
+              esc_body false s = str_body_old prev s).
+  { induction s as [|c t IH]; intros prev Hp H.
+    - cbn [esc_body str_body_old]. rewrite Hp. reflexivity.
+    - cbn [no_bsl] in H. apply andb_true_iff in H. destruct H as [H1 H2]. apply negb_true_iff in H1.
+      cbn [esc_body str_body_old]. rewrite H1, Hp, orb_false_r. rewrite (IH c H1 H2). reflexivity. }
+  intros s H. apply (G s dq); [reflexivity|exact H].
+Qed.
+(* ... but the new notion does NOT extend the old one: (backslash, backslash, quote) was a body before (the quote
+   counted as escaped); now the escaped backslash is complete and the quote closes the literal *)
+Theorem body_ok_not_extension_refuted :
+  exists s, str_body_old dq s = true /\ body_ok s = false /\ s = String bsl (String bsl (String dq "")).
+Proof. exists (String bsl (String bsl (String dq ""))). repeat split; vmr. Qed.
 
 (* ====================================================================== *)
 (* PART 7 : byte literals                                                   *)
@@ -841,7 +880,8 @@ Theorem byte_literals_unchecked :
   parse_line "byte 0xZZ" = Ok (Some (IOther "Byte" [PStr "0xZZ"])) /\
   parse_line "byte base64 !!" = Ok (Some (IOther "Byte" [PStr "0x"])) /\
   parse_line "method 0x01" = Ok (Some (IOther "Method" [PStr "0x01"])) /\
-  str_of_instr (IOther "Method" [PStr "0x01"]) = "method x0".
+  str_of_instr (IOther "Method" [PStr "0x01"]) = "method ""x0""" /\
+  parse_line (str_of_instr (IOther "Method" [PStr "0x01"])) = Ok (Some (IOther "Method" [PStr """x0"""])).
 Proof. repeat split; vmr. Qed.
 
 (* --- decoded literals are hex words *)
@@ -947,7 +987,7 @@ Lemma str_byte : forall b, str_of_instr (IOther "Byte" [PStr b]) = "byte " ++ b.
 Proof. intros. str_instr. reflexivity. Qed.
 Lemma str_pushbytes : forall b, str_of_instr (IOther "PushBytes" [PStr b]) = "pushbytes " ++ b.
 Proof. intros. str_instr. reflexivity. Qed.
-Lemma str_method : forall b, str_of_instr (IOther "Method" [PStr b]) = "method " ++ unquote b.
+Lemma str_method : forall b, str_of_instr (IOther "Method" [PStr b]) = "method " ++ quoted (unquote b).
 Proof. intros. str_instr. reflexivity. Qed.
 Lemma str_bytecblock : forall l, str_of_instr (IOther "Bytecblock" [PStrs l]) = join " " ("bytecblock" :: l).
 Proof. intros. str_instr. cbn [list_of_param]. apply (join_concat_sp l "bytecblock"). Qed.
@@ -1049,10 +1089,16 @@ Proof. intros body. unfold unquote, quoted. apply drop_last_snoc. Qed.
 Theorem parse_method : forall body, body_ok body = true ->
   parse_line ("method " ++ quoted body) = Ok (Some (IOther "Method" [PStr (quoted body)])).
 Proof. intros body H. apply (parse_bytes_quoted "method"); [right; right; reflexivity|exact H]. Qed.
-Theorem str_method_quoted : forall body, str_of_instr (IOther "Method" [PStr (quoted body)]) = "method " ++ body.
+Theorem str_method_quoted : forall body,
+  str_of_instr (IOther "Method" [PStr (quoted body)]) = "method " ++ quoted body.
 Proof. intros body. rewrite str_method, unquote_quoted. reflexivity. Qed.
 
-(* the printed form of `method` drops the quotes, and so does not parse back *)
+(* after the repair of Method.__str__ (the signature is printed WITH its quotes): the printed form parses back *)
+Theorem roundtrip_method : forall body, body_ok body = true ->
+  parse_line (str_of_instr (IOther "Method" [PStr (quoted body)])) = Ok (Some (IOther "Method" [PStr (quoted body)])).
+Proof. intros body H. rewrite str_method_quoted. apply parse_method. exact H. Qed.
+
+(* the test of _parse_byte_arguments, as one boolean: a token on which all of them fail is rejected *)
 Definition byte_head (x : string) : bool :=
   (x =? "base64") || (x =? "b64") || (x =? "base32") || (x =? "b32") ||
   starts_with "base64(" x || starts_with "b64(" x || starts_with "base32(" x || starts_with "b32(" x || is_lit x.
@@ -1066,28 +1112,21 @@ Proof.
   repeat match goal with E : _ = false |- _ => rewrite E; clear E end. reflexivity.
 Qed.
 
-(* strongest true variant: a method signature that is one word and does not itself look like a byte literal
-   (every real ABI signature) is parsed, but prints to a line that is REJECTED *)
-Theorem roundtrip_method_partial : forall sig, body_ok sig = true -> word_ok sig = true -> byte_head sig = false ->
-  parse_line ("method " ++ quoted sig) = Ok (Some (IOther "Method" [PStr (quoted sig)])) /\
-  parse_line (str_of_instr (IOther "Method" [PStr (quoted sig)])) = Err "ParseError: incorrect byte format".
+(* an unquoted signature is (still) rejected *)
+Theorem method_unquoted_rejected : forall sig, word_ok sig = true -> byte_head sig = false ->
+  parse_line ("method " ++ sig) = Err "ParseError: incorrect byte format".
 Proof.
-  intros sig Hb Hw Hh. split; [apply parse_method; exact Hb|].
-  rewrite str_method_quoted. change ("method " ++ sig) with (join " " ["method"; sig]).
+  intros sig Hw Hh. change ("method " ++ sig) with (join " " ["method"; sig]).
   rewrite parse_line_words; [|discriminate|simpl; rewrite Hw; reflexivity].
   unfold parse_fields. cbn [last_char Ascii.eqb Bool.eqb String.eqb andb orb length].
   rewrite parse_byte_args_bad by exact Hh. reflexivity.
 Qed.
 
-Theorem roundtrip_method_refuted :
-  exists l i, parse_line l = Ok (Some i) /\ parse_line (str_of_instr i) <> Ok (Some i) /\
-              l = "method " ++ quoted "add(uint64,uint64)uint64" /\
-              str_of_instr i = "method add(uint64,uint64)uint64" /\
-              parse_line (str_of_instr i) = Err "ParseError: incorrect byte format".
-Proof.
-  exists ("method " ++ quoted "add(uint64,uint64)uint64"), (IOther "Method" [PStr (quoted "add(uint64,uint64)uint64")]).
-  split; [vmr|]. split; [intros H; vm_compute in H; discriminate H|]. split; [reflexivity|]. split; vmr.
-Qed.
+Example roundtrip_method_example :
+  str_of_instr (IOther "Method" [PStr (quoted "add(uint64,uint64)uint64")]) = "method " ++ quoted "add(uint64,uint64)uint64" /\
+  parse_line ("method " ++ quoted "add(uint64,uint64)uint64") =
+    Ok (Some (IOther "Method" [PStr (quoted "add(uint64,uint64)uint64")])).
+Proof. split; vmr. Qed.
 
 (* ====================================================================== *)
 (* PART 8 : unknown opcodes                                                 *)
@@ -1317,7 +1356,10 @@ Print Assumptions array_index_spellings.
 Print Assumptions array_forms_unchecked.
 Print Assumptions tokenize_toks.
 Print Assumptions parse_line_toks.
-Print Assumptions quoted_backslash_refuted.
+Print Assumptions quoted_backslash_accepted.
+Print Assumptions quoted_escapes.
+Print Assumptions body_ok_old_no_bsl.
+Print Assumptions body_ok_not_extension_refuted.
 Print Assumptions parse_byte_args_forms.
 Print Assumptions parse_bytes1.
 Print Assumptions parse_bytesn.
@@ -1339,8 +1381,9 @@ Print Assumptions bytes_parse_print_parse.
 Print Assumptions bytesn_parse_print_parse.
 Print Assumptions base64_spelling_normalised.
 Print Assumptions parse_method.
-Print Assumptions roundtrip_method_partial.
-Print Assumptions roundtrip_method_refuted.
+Print Assumptions str_method_quoted.
+Print Assumptions roundtrip_method.
+Print Assumptions method_unquoted_rejected.
 Print Assumptions unknown_fields.
 Print Assumptions unknown_line.
 Print Assumptions unknown_verbatim.
